@@ -107,6 +107,12 @@ theorem sum_map_add {B : Type} (l : List B) (g h : B → K) :
   | nil => simp
   | cons b u ih => simp only [List.map_cons, List.sum_cons, ih]; ring
 
+theorem sum_map_sub_k {B : Type} (l : List B) (g h : B → K) :
+    (l.map g).sum - (l.map h).sum = (l.map fun b => g b - h b).sum := by
+  induction l with
+  | nil => simp
+  | cons b u ih => simp only [List.map_cons, List.sum_cons, ← ih]; ring
+
 theorem sum_map_mul_left_k {B : Type} (l : List B) (k : K) (g : B → K) :
     k * (l.map g).sum = (l.map fun b => k * g b).sum := by
   induction l with
